@@ -9,7 +9,7 @@ golibs policy is in the model; the invariant proofs do not depend on what
 `Set` evicts or rejects, so they hold for every cache size).
 Environment assumptions are spelled out in `OpOK` (AGH/Lemmas/HashPrefixHistory).
 -/
-import AGH.Lemmas.HashPrefixCodec
+import AGH.Lemmas.HashPrefixConc
 namespace AGH.C19
 open AGH AGH.Bytes
 
@@ -260,6 +260,52 @@ theorem C19_constants :
   refine ⟨fun _ => rfl, rfl, fun _ => rfl, fun t h => ?_⟩
   simp only [hexSize] at h
   simp [parseTXT, h]
+
+/-! ### overlapping lookups on one Checker -/
+
+/-- `Check` is its two steps — and a function of (the name's hashes, what the
+service answers, the cache) only: it reads and writes no other shared state
+(fact line `C19.checkfields`: the lookup path touches no Checker field but
+`svc`, `upstream`, and the cache through findInCache/storeInCache). -/
+theorem C19_check_two_steps (cf : Conf) (now : Nat) (hashes : List Hash)
+    (exchange : Bytes → Option (List RR)) (ord : List Hash → List (Prefix × List Hash)) (c : Cache) :
+    check cf now hashes exchange ord c =
+      match findInCache now hashes c with
+      | (.cached b, c1) => (⟨.blocked b, none⟩, c1)
+      | (.ask toReq, c1) => checkAnswer cf now toReq exchange ord c1 :=
+  check_two_steps cf now hashes exchange ord c
+
+/-- **Overlapping lookups are serialisable.**  Any number of lookups in flight
+on one Checker, each in its two steps (cache scan; exchange + store), under
+EVERY schedule of steps, honest service, any cache size: the cache invariant
+holds at every point, every lookup that has to ask asks about a sub-list of
+its OWN hashes only, and every verdict given is the fresh verdict of its own
+name — i.e. exactly what the same lookups give one after the other in any
+order (`C19_cache_transparent`).  Stores of different lookups commute as far
+as verdicts go: whatever order they land in, every unexpired item is complete
+for its prefix. -/
+theorem C19_concurrent_checks_serialisable (db : List Hash) (cf : Conf) (now : Nat) (hs : Nat → List Hash)
+    (exch : Bytes → Option (List RR)) (ord : List Hash → List (Prefix × List Hash)) (c : Cache)
+    (hinv : Inv db now c)
+    (henv : ∀ toReq answer, exch (getQuestion cf.suffix toReq) = some answer →
+      Honest db toReq (receivedHashes answer) ∧
+      validGroups (receivedHashes answer) (ord (receivedHashes answer)) = true)
+    (sched : List Nat) :
+    let s := sched.foldl (stepC cf now hs exch ord) (ConcC.init c)
+    Inv db now s.cache ∧
+    (∀ i, s.pc i = 1 → ∀ y ∈ s.pend i, y ∈ hs i) ∧
+    (∀ i o, s.res i = some o → ∀ b, o.verdict = .blocked b → b = (hs i).any (fun h => db.contains h)) := by
+  intro s
+  have h0 : ConcInv db now hs (ConcC.init c) :=
+    ⟨hinv, fun i hi => by simp [ConcC.init] at hi, fun i o ho => by simp [ConcC.init] at ho⟩
+  have : ∀ (sched : List Nat) (s0 : ConcC), ConcInv db now hs s0 →
+      ConcInv db now hs (sched.foldl (stepC cf now hs exch ord) s0) := by
+    intro sched
+    induction sched with
+    | nil => intro s0 h; exact h
+    | cons i rest ih => intro s0 h; exact ih _ (concInv_step h henv i)
+  have hfin := this sched _ h0
+  exact ⟨hfin.inv, fun i hi => (hfin.pending i hi).1, hfin.done⟩
 
 /-! ### in front of the checkers: `DNSFilter.CheckHost` -/
 
